@@ -189,6 +189,23 @@ func (s SepCfg) fn() spg.SFFunction {
 		return presetFuncs[s.Preset]
 	case "recipe":
 		return spg.NewSFFunction(s.Recipe.Recipe())
+	case "draw0":
+		// a caller-written function that draws uniformly among its values but reports entropy 0
+		vals := append([]string(nil), s.Vals...)
+		return func() (string, spg.FloatE) {
+			return vals[spg.VerifRandomUint32n(uint32(len(vals)))], 0
+		}
+	case "weird":
+		// a caller-written function whose reported entropy is not a sensible number
+		v := s.Char
+		e := spg.FloatE(math.NaN())
+		switch s.Preset {
+		case "neg":
+			e = -1
+		case "inf":
+			e = spg.FloatE(math.Inf(1))
+		}
+		return func() (string, spg.FloatE) { return v, e }
 	case "draw":
 		vals := append([]string(nil), s.Vals...)
 		ent := spg.FloatE(math.Log2(float64(len(vals))))
@@ -233,6 +250,13 @@ func (s SepCfg) law() *SepLaw {
 		l, ok := recipeSepLaw(*s.Recipe, 5000)
 		if !ok {
 			return nil
+		}
+		return l
+	case "draw0":
+		l := &SepLaw{Entropy: 0}
+		for _, v := range s.Vals {
+			l.Vals = append(l.Vals, v)
+			l.Probs = append(l.Probs, ratFrac(1, int64(len(s.Vals))))
 		}
 		return l
 	case "draw":
@@ -300,8 +324,8 @@ func (s SepCfg) String() string {
 		return s.Preset
 	case "recipe":
 		return "recipe" + s.Recipe.String()
-	case "draw":
-		return fmt.Sprintf("draw%q", s.Vals)
+	case "draw", "draw0":
+		return fmt.Sprintf("%s%q", s.Kind, s.Vals)
 	}
 	return s.Kind + "(" + s.Char + ")"
 }
